@@ -1,12 +1,14 @@
 package c15
 
 import (
+	"bufio"
 	"bytes"
 	"compress/gzip"
 	"encoding/json"
 	"errors"
 	"fmt"
 	"io"
+	"net"
 	"net/http"
 	"sort"
 	"strings"
@@ -48,6 +50,7 @@ type rec struct {
 	encOut  bytes.Buffer // bytes written by an encoder
 	inEnc   int
 	encUsed string // AcceptEncoding name of the encoder that was opened on this writer
+	hijacks int
 }
 
 func newRec() *rec { return &rec{h: http.Header{}} }
@@ -91,6 +94,15 @@ func (r *rec) Write(p []byte) (int, error) {
 func (r *rec) Flush() {
 	r.implicit()
 	r.events = append(r.events, event{kind: "F"})
+}
+
+// Hijack: the recorder cannot give a connection away, but it notices being asked — which is what
+// http.ResponseController(w).Hijack() must reach through every Unwrap() of the writers above it.
+var errRecHijack = errors.New("rec: hijack reached the wrapped writer")
+
+func (r *rec) Hijack() (net.Conn, *bufio.ReadWriter, error) {
+	r.hijacks++
+	return nil, nil, errRecHijack
 }
 
 // recRF additionally implements io.ReaderFrom (like net/http's *response)
